@@ -52,8 +52,11 @@ PROPS = {
     "C01": proc("corr.C01", "PROC", "props/C01.v", "refused starts and stop failures on the motion sink, no write faults; compared projection: motion-sink starts/stops/ids; spec S01 && S02"),
     "C02": proc("corr.C02", "PROC", "props/C02.v", "refused starts and stop failures, no write faults; compared projection: motion-sink starts/stops/ids; spec S02 (first id of every recording)"),
     "C03": proc("corr.C03", "PROC", "props/C03.v", "refused starts and stop failures, no write faults; compared projection: per event started/stopped; spec S03 (stop iff position >= limit)"),
-    "C04": proc("corr.C04", "PROC", "props/C04.v", "refused starts at every gate; compared projection: window consultations, gate calls, stops; spec S04; the real window library is run next to window_active"),
-    "C05": {"stages": [{"harness": "THROTTLE", "corr": "corr.C05", "n": {"quick": 200, "thorough": 5000}, "shard": 18}],
+    "C04": dict(proc("corr.C04", "PROC", "props/C04.v", "refused starts at every gate; compared projection: window consultations, gate calls, stops; spec S04; the real window library is run next to window_active"),
+                **{"stages": [{"harness": "PROC", "corr": "corr.C04", "n": {"quick": 220, "thorough": 4000}, "shard": 20},
+                              {"harness": "E2E", "corr": "corr.E2E14", "n": {"quick": 10, "thorough": 150}, "shard": 1}]}),
+    "C05": {"stages": [{"harness": "THROTTLE", "corr": "corr.C05", "n": {"quick": 200, "thorough": 5000}, "shard": 18},
+                       {"harness": "E2ETHR", "corr": "corr.C18lag", "n": {"quick": 2, "thorough": 12}, "shard": 8}],
             "theorems": "props/C05.v", "rule": THR_RULE % "spec: all O(n^2) windows of forwarded-write timestamps within cap+1+q*(floor((b-a)/fi)+1), cap = bucket frames, minlen = (min+preview)*fps, rate_ok",
             "trusted_base": THR_TB},
     "C06": {"stages": [{"harness": "THROTTLE", "corr": "corr.C06", "n": {"quick": 200, "thorough": 5000}, "shard": 18}],
@@ -129,7 +132,7 @@ PROPS = {
                     "one case per racy variable reported; non-trivial = more than 100 snapshots taken / a race reported; distinct by case kind",
             "trusted_base": TB_COMMON + ["Go memory model effects beyond sequential consistency and scheduler fairness are outside the model; the race detector finds only races that occur in the run; "
                                          "race reports are classified into variables by the functions and source lines of the two top frames"]},
-    "C11": {"stages": [{"harness": "E2E", "corr": "corr.E2E11", "n": {"quick": 12, "thorough": 200}, "shard": 1},
+    "C11": {"stages": [{"harness": "E2E", "corr": "corr.E2E11", "n": {"quick": 16, "thorough": 200}, "shard": 1},
                        {"harness": "E2ETHR", "corr": "corr.C18lag", "n": {"quick": 2, "thorough": 12}, "shard": 8},
                        {"harness": "CODEC", "corr": "corr.C11codec", "n": {"quick": 300, "thorough": 10000}, "shard": 50},
                        {"harness": "CPTVHDR", "corr": "corr.C11hdr", "n": {"quick": 150, "thorough": 3000}, "shard": 30}],
@@ -158,9 +161,9 @@ PROPS = {
                     " || start-arguments clause: end-to-end sessions: generated config.toml (min/max/preview secs or defaults, trigger frames, throttle off / transparent / impossible, constant recorder, window none / closed, min-disk-space 0 / huge, device id/name, location, 11 motion keys each written or left to the camera-model default for lepton3 / lepton3.5 / boson), camera header encoded as the camera daemon does, 60-180 frames (8x6..16x12, a flickering hot blob that appears/moves/disappears, FFC events, bad frames, 'clear' markers, extreme values) sent in random chunk sizes over a unix socket to the real ParseConfig + handleConn (driver binary), every finished .cptv decoded with the standard reader and compared with model/System.v: per file threshold, background, frame ids; frame contents (pixels, times, temperatures) and header view compared by the harness (compared projection: threshold and background stored with each recording = the model detector's values after the trigger frame)",
             "trusted_base": DET_TB + ["theorem C15_background_and_threshold depends on the standard library's classical real-number axioms through Flocq (named in Print Assumptions); C15_partial is the axiom-free form with the four IEEE-754 facts as hypotheses"]},
     "C17": {"stages": [{"harness": "PROC", "corr": "corr.C17", "n": {"quick": 220, "thorough": 4000}, "shard": 20},
-                       {"harness": "E2E", "corr": "corr.E2E17", "n": {"quick": 6, "thorough": 150}, "shard": 1}],
+                       {"harness": "E2E", "corr": "corr.E2E14", "n": {"quick": 16, "thorough": 150}, "shard": 1}],
             "theorems": "props/C17.v",
             "rule": (PROC_RULE % "fault-free continuous and test sinks, motion-sink refusals; compared projection: continuous and test sinks; spec S17c && S17t") +
-                    " || wiring: end-to-end sessions: generated config.toml (min/max/preview secs or defaults, trigger frames, throttle off / transparent / impossible, constant recorder, window none / closed, min-disk-space 0 / huge, device id/name, location, 11 motion keys each written or left to the camera-model default for lepton3 / lepton3.5 / boson), camera header encoded as the camera daemon does, 60-180 frames (8x6..16x12, a flickering hot blob that appears/moves/disappears, FFC events, bad frames, 'clear' markers, extreme values) sent in random chunk sizes over a unix socket to the real ParseConfig + handleConn (driver binary), every finished .cptv decoded with the standard reader and compared with model/System.v: per file threshold, background, frame ids; frame contents (pixels, times, temperatures) and header view compared by the harness (compared projection: frame ids of the files in constant-recordings/, with throttling / window / disk refusals active on the motion recorder)",
+                    " || wiring: end-to-end sessions: generated config.toml (min/max/preview secs or defaults, trigger frames, throttle off / transparent / impossible, constant recorder, window none / closed, min-disk-space 0 / huge, device id/name, location, 11 motion keys each written or left to the camera-model default for lepton3 / lepton3.5 / boson), camera header encoded as the camera daemon does, 60-180 frames (8x6..16x12, a flickering hot blob that appears/moves/disappears, FFC events, bad frames, 'clear' markers, extreme values) sent in random chunk sizes over a unix socket to the real ParseConfig + handleConn (driver binary), every finished .cptv decoded with the standard reader and compared with model/System.v: per file threshold, background, frame ids; frame contents (pixels, times, temperatures) and header view compared by the harness (compared projection: frame ids of every file in constant-recordings/ and in the output directory - the continuous recorder tiles the stream and leaves the motion recorder's files alone - with throttling / window / disk refusals active on the motion recorder)",
             "trusted_base": PROC_TB},
 }
